@@ -1,25 +1,1080 @@
-//! C25 — not built yet (stub).
+//! C25 — CLI, HTTP and FFI agree with the Rust API.
+//!
+//! One case = a schema, an abstract history (batches of upserts — now and then with a document
+//! the library rejects —, deletes, commits, compaction) and a list of searches.  The history
+//! is rendered for each front end and run against its own index directory:
+//!   * the CLI binary (`searchlite-cli`, built from /repo into `harness/target/cli`, one
+//!     subprocess per command),
+//!   * the HTTP service (in-process server, raw HTTP/1.1),
+//!   * the C FFI (`searchlite_ffi::*`, linked as rlib; adds only — it has no delete/compact).
+//! Next to every front-end directory a *twin* directory receives the equivalent Rust API calls.
+//!
+//! Finder (implementation alone): the harness's own table of equivalent library calls
+//! (`native_denote`) is executed on the twin; contents after every commit, the outcome of
+//! every operation and the results of every search (through the front end vs
+//! `IndexReader::search` on the twin) must coincide.
+//! Correspondence: the model's `denote` must equal that table call for call, the model's
+//! contents semantics (`runFront`) must predict the committed contents of the front-end
+//! directory, and the model's `cliRequest` / `ffiRequest`, run through the library, must
+//! give what the CLI / FFI printed.
+use crate::idx;
 use crate::proto::Driver;
 use crate::rng::Rng;
 use crate::summary::Summary;
+use crate::util::{guarded, scratch};
 use crate::{Prop, Tier};
+use searchlite_core::api::types::{Document, QueryNode, SearchRequest};
+use searchlite_core::api::writer::IndexWriter;
+use searchlite_core::api::Index;
+use searchlite_core::Schema;
+use searchlite_ffi::*;
 use serde_json::{json, Value};
+use std::collections::BTreeMap;
+use std::ffi::CString;
+use std::os::raw::c_char;
+use std::path::{Path, PathBuf};
+use std::process::Command;
+use std::sync::{Mutex, OnceLock};
 
-pub struct Stub;
-pub static P: Stub = Stub;
+use super::c24::httpc::*;
+use super::c24::{lib_opts, schema_pool};
 
-impl Prop for Stub {
+pub struct C25;
+pub static P: C25 = C25;
+
+// ---------------------------------------------------------------------------------------
+// the CLI binary
+// ---------------------------------------------------------------------------------------
+
+fn cli_binary() -> Result<PathBuf, String> {
+  static BIN: OnceLock<Mutex<Option<Result<PathBuf, String>>>> = OnceLock::new();
+  let m = BIN.get_or_init(|| Mutex::new(None));
+  let mut g = m.lock().unwrap();
+  if let Some(r) = g.as_ref() {
+    return r.clone();
+  }
+  let root = crate::proto::verif_root();
+  let target = std::env::var("VERIF_CLI_TARGET").unwrap_or_else(|_| format!("{root}/harness/target/cli"));
+  let out = Command::new("cargo")
+    .args(["build", "--offline", "-j", "6", "-p", "searchlite-cli", "--manifest-path", "/repo/Cargo.toml", "--target-dir", &target])
+    .current_dir(&root)
+    .env("CARGO_NET_OFFLINE", "true")
+    .env_remove("RUSTFLAGS")
+    .output();
+  let r = match out {
+    Ok(o) if o.status.success() => {
+      let p = PathBuf::from(format!("{target}/debug/searchlite-cli"));
+      if p.exists() {
+        Ok(p)
+      } else {
+        Err("cargo succeeded but the CLI binary is missing".to_string())
+      }
+    }
+    Ok(o) => {
+      let e = String::from_utf8_lossy(&o.stderr);
+      let tail: Vec<&str> = e.lines().filter(|l| l.starts_with("error")).take(5).collect();
+      Err(format!("building searchlite-cli failed: {}", tail.join("; ")))
+    }
+    Err(e) => Err(format!("cargo: {e}")),
+  };
+  *g = Some(r.clone());
+  r
+}
+
+struct CliOut {
+  ok: bool,
+  stdout: String,
+  stderr: String,
+}
+
+fn cli(bin: &Path, args: &[&str]) -> CliOut {
+  match Command::new(bin).args(args).env("RUST_BACKTRACE", "0").env_remove("RUST_LOG").output() {
+    Ok(o) => CliOut {
+      ok: o.status.success(),
+      stdout: String::from_utf8_lossy(&o.stdout).to_string(),
+      stderr: String::from_utf8_lossy(&o.stderr).lines().next().unwrap_or("").to_string(),
+    },
+    Err(e) => CliOut { ok: false, stdout: String::new(), stderr: format!("spawn: {e}") },
+  }
+}
+
+// ---------------------------------------------------------------------------------------
+// library interpreter for `LibOp` lists (the twin)
+// ---------------------------------------------------------------------------------------
+
+struct Twin {
+  dir: PathBuf,
+  schema: Schema,
+  index: Option<Index>,
+  writer: Option<IndexWriter>,
+  failed: bool,
+}
+
+fn to_document(v: &Value) -> Document {
+  let mut fields = BTreeMap::new();
+  if let Some(obj) = v.as_object() {
+    for (k, x) in obj {
+      fields.insert(k.clone(), x.clone());
+    }
+  }
+  Document { fields }
+}
+
+impl Twin {
+  /// run the calls; `Ok(())` when none of them returned `Err`
+  fn exec(&mut self, ops: &[Value]) -> Result<(), String> {
+    let mut first_err: Option<String> = None;
+    let note = |e: String, fe: &mut Option<String>| {
+      if fe.is_none() {
+        *fe = Some(e);
+      }
+    };
+    for op in ops {
+      let name = op["op"].as_str().unwrap_or("");
+      match name {
+        "create_idx" => match Index::create(&self.dir, self.schema.clone(), lib_opts(&self.dir, true)) {
+          Ok(i) => self.index = Some(i),
+          Err(e) => note(format!("create: {e}"), &mut first_err),
+        },
+        "open_idx" => {
+          self.writer = None;
+          match Index::open(lib_opts(&self.dir, op["create"].as_bool().unwrap_or(false))) {
+            Ok(i) => self.index = Some(i),
+            Err(e) => {
+              self.index = None;
+              note(format!("open: {e}"), &mut first_err);
+              // the process ends here (`?`)
+              self.failed = true;
+            }
+          }
+        }
+        "new_writer" => {
+          self.failed = false;
+          match self.index.as_ref().map(|i| i.writer()) {
+            Some(Ok(w)) => self.writer = Some(w),
+            Some(Err(e)) => {
+              note(format!("writer: {e}"), &mut first_err);
+              self.failed = true;
+            }
+            None => {
+              note("no index".into(), &mut first_err);
+              self.failed = true;
+            }
+          }
+        }
+        "add" => {
+          if !self.failed {
+            if let Some(w) = self.writer.as_mut() {
+              if let Err(e) = w.add_document(&to_document(&op["doc"]["doc"])) {
+                note(format!("add: {e}"), &mut first_err);
+                self.failed = true;
+              }
+            }
+          }
+        }
+        "delete" => {
+          if !self.failed {
+            let ids: Vec<String> = op["ids"].as_array().map(|a| a.iter().filter_map(|x| x.as_str().map(String::from)).collect()).unwrap_or_default();
+            if let Some(w) = self.writer.as_mut() {
+              if let Err(e) = w.delete_documents(&ids) {
+                note(format!("delete: {e}"), &mut first_err);
+                self.failed = true;
+              }
+            }
+          }
+        }
+        "commit" => {
+          if !self.failed {
+            if let Some(w) = self.writer.as_mut() {
+              if let Err(e) = w.commit() {
+                note(format!("commit: {e}"), &mut first_err);
+                self.failed = true;
+              }
+            }
+          }
+        }
+        "rollback_if_failed" => {
+          if self.failed {
+            if let Some(w) = self.writer.as_mut() {
+              let _ = w.rollback();
+            }
+          }
+        }
+        "drop_writer" => {
+          self.writer = None;
+          self.failed = false;
+        }
+        "compact" => {
+          if !self.failed {
+            if let Some(Err(e)) = self.index.as_ref().map(|i| i.compact()) {
+              note(format!("compact: {e}"), &mut first_err);
+            }
+          }
+        }
+        "refresh" => {
+          if let Some(Err(e)) = self.index.as_ref().map(|i| i.reader().map(|_| ())) {
+            note(format!("refresh: {e}"), &mut first_err);
+          }
+        }
+        _ => note(format!("unknown lib op {name}"), &mut first_err),
+      }
+    }
+    match first_err {
+      None => Ok(()),
+      Some(e) => Err(e),
+    }
+  }
+}
+
+/// the harness's own reading of the front ends: equivalent library calls, same JSON format
+/// as the model's `denote`
+fn native_denote(f: &Value) -> Vec<Value> {
+  let adds = |docs: &Value| -> Vec<Value> { docs.as_array().map(|a| a.iter().map(|d| json!({"op":"add","doc": d})).collect()).unwrap_or_default() };
+  let open = json!({"op":"open_idx","create":false});
+  let nw = json!({"op":"new_writer"});
+  let dw = json!({"op":"drop_writer"});
+  match f["kind"].as_str().unwrap_or("") {
+    "cli_init" | "http_init" => vec![json!({"op":"create_idx"})],
+    "cli_add" | "cli_update" => {
+      let mut v = vec![open, nw];
+      v.extend(adds(&f["docs"]));
+      v.push(dw);
+      v
+    }
+    "cli_delete" => vec![open, nw, json!({"op":"delete","ids": f["ids"]}), dw],
+    "cli_commit" => vec![open, nw, json!({"op":"commit"}), dw],
+    "cli_compact" => vec![open, json!({"op":"compact"})],
+    "http_add" | "http_bulk" => {
+      let docs = adds(&f["docs"]);
+      if docs.is_empty() && f["kind"] == json!("http_add") {
+        return vec![];
+      }
+      let mut v = vec![nw];
+      v.extend(docs);
+      v.push(json!({"op":"rollback_if_failed"}));
+      v.push(dw);
+      v
+    }
+    "http_delete" => vec![nw, json!({"op":"delete","ids": f["ids"]}), dw],
+    "http_commit" => {
+      let mut v = vec![nw, json!({"op":"commit"})];
+      if f["refresh"] == json!(true) {
+        v.push(json!({"op":"refresh"}));
+      }
+      v.push(dw);
+      v
+    }
+    "http_compact" => vec![json!({"op":"compact"})],
+    "http_refresh" => vec![json!({"op":"refresh"})],
+    "ffi_open" => vec![json!({"op":"open_idx","create":true})],
+    "ffi_add" => vec![nw, json!({"op":"add","doc": f["doc"]}), json!({"op":"commit"}), dw],
+    "ffi_commit" => vec![nw, json!({"op":"commit"}), dw],
+    _ => vec![],
+  }
+}
+
+// ---------------------------------------------------------------------------------------
+// comparison helpers
+// ---------------------------------------------------------------------------------------
+
+/// structural JSON equality with relative tolerance on numbers (f32 scores printed and
+/// re-read differ in the last digits); `next_cursor` values are compared for presence only
+fn json_close(a: &Value, b: &Value) -> bool {
+  match (a, b) {
+    (Value::Number(x), Value::Number(y)) => {
+      if x == y {
+        return true;
+      }
+      match (x.as_f64(), y.as_f64()) {
+        (Some(p), Some(q)) => idx::close(p, q, 2e-5),
+        _ => false,
+      }
+    }
+    (Value::Array(x), Value::Array(y)) => x.len() == y.len() && x.iter().zip(y.iter()).all(|(p, q)| json_close(p, q)),
+    (Value::Object(x), Value::Object(y)) => {
+      let keys: std::collections::BTreeSet<&String> = x.keys().chain(y.keys()).collect();
+      keys.into_iter().all(|k| {
+        let p = x.get(k).unwrap_or(&Value::Null);
+        let q = y.get(k).unwrap_or(&Value::Null);
+        if k == "next_cursor" {
+          p.is_null() == q.is_null()
+        } else {
+          json_close(p, q)
+        }
+      })
+    }
+    _ => a == b,
+  }
+}
+
+/// hits compared as lists; neighbours whose scores tie may be swapped (hash-map summation
+/// order / tie-break by internal ids is layout dependent)
+fn results_close(a: &Value, b: &Value) -> Result<(), String> {
+  let (ha, hb) = (a["hits"].as_array().cloned().unwrap_or_default(), b["hits"].as_array().cloned().unwrap_or_default());
+  if ha.len() != hb.len() {
+    return Err(format!("hit counts differ: {} vs {}", ha.len(), hb.len()));
+  }
+  let mut i = 0;
+  while i < ha.len() {
+    // tie group in `a` starting at i
+    let s = ha[i]["score"].as_f64().unwrap_or(f64::NAN);
+    let mut j = i + 1;
+    while j < ha.len() && idx::close(ha[j]["score"].as_f64().unwrap_or(f64::NAN), s, 2e-5) {
+      j += 1;
+    }
+    let mut ga: Vec<&Value> = ha[i..j].iter().collect();
+    let mut gb: Vec<&Value> = hb[i..j].iter().collect();
+    let key = |h: &&Value| h["doc_id"].as_str().unwrap_or("").to_string();
+    // sorted-by-field requests have no ties to permute in practice; a swap is only accepted
+    // inside a score-tie group
+    if ga.iter().map(key).collect::<Vec<_>>() != gb.iter().map(key).collect::<Vec<_>>() {
+      ga.sort_by_key(key);
+      gb.sort_by_key(key);
+    }
+    for (x, y) in ga.iter().zip(gb.iter()) {
+      if !json_close(x, y) {
+        return Err(format!("hit differs at rank {i}..{j}: {} vs {}", x, y));
+      }
+    }
+    i = j;
+  }
+  let strip = |v: &Value| {
+    let mut v = v.clone();
+    if let Some(o) = v.as_object_mut() {
+      o.remove("hits");
+    }
+    v
+  };
+  if !json_close(&strip(a), &strip(b)) {
+    return Err(format!("response members differ: {} vs {}", strip(a), strip(b)));
+  }
+  Ok(())
+}
+
+fn live_of(dir: &Path) -> Result<BTreeMap<String, Value>, String> {
+  let i = Index::open(lib_opts(dir, false)).map_err(|e| format!("open: {e}"))?;
+  idx::live(&i)
+}
+
+fn lib_search(dir: &Path, req: &Value) -> idx::Outcome {
+  let i = match Index::open(lib_opts(dir, false)) {
+    Ok(i) => i,
+    Err(e) => return idx::Outcome::Err(format!("open: {e}")),
+  };
+  let r = match i.reader() {
+    Ok(r) => r,
+    Err(e) => return idx::Outcome::Err(format!("reader: {e}")),
+  };
+  match serde_json::from_value::<SearchRequest>(req.clone()) {
+    Err(e) => idx::Outcome::Err(format!("request: {e}")),
+    Ok(sr) => match guarded(|| r.search(&sr)) {
+      Ok(Ok(res)) => idx::Outcome::Ok(serde_json::to_value(&res).unwrap_or(Value::Null)),
+      Ok(Err(e)) => idx::Outcome::Err(e.to_string()),
+      Err(p) => idx::Outcome::Panic(p),
+    },
+  }
+}
+
+// ---------------------------------------------------------------------------------------
+// generation
+// ---------------------------------------------------------------------------------------
+
+const WORDS: [&str; 9] = ["rust", "search", "engine", "fast", "lite", "index", "über", "日本", "embedded"];
+
+fn gen_doc(rng: &mut Rng, id: usize, rich: bool) -> Value {
+  let n = 1 + rng.below(6);
+  let body: Vec<&str> = (0..n).map(|_| *rng.pick(&WORDS)).collect();
+  let mut d = json!({"_id": format!("d{id}"), "body": body.join(" ")});
+  if rich {
+    d["tag"] = json!(["a", "b", "c"][rng.below(3)]);
+    d["year"] = json!(2000 + rng.below(6));
+  }
+  d
+}
+
+fn gen_request(rng: &mut Rng, rich: bool) -> Value {
+  let w = *rng.pick(&WORDS);
+  let w2 = *rng.pick(&WORDS);
+  let n = if rich { 10 } else { 7 };
+  match rng.below(n) {
+    0 => json!({"query": w, "limit": 1 + rng.below(4), "return_stored": true}),
+    1 => json!({"query": format!("{w} {w2}"), "limit": 5, "return_stored": false, "execution": "bm25"}),
+    2 => json!({"query": {"type":"term","field":"body","value": w}, "limit": 3, "return_stored": true, "execution": "bmw"}),
+    3 => json!({"query": {"type":"match_all"}, "limit": 20, "return_stored": true}),
+    4 => json!({"query": w, "limit": 2, "return_stored": true, "highlight_field": "body"}),
+    5 => json!({"query": format!("{w} {w2}"), "limit": 3, "return_stored": false, "aggs": {"n": {"type":"value_count","field":"body"}}}),
+    6 => json!({"query": {"type":"match_all"}, "limit": 2, "return_stored": false, "page2": true}),
+    7 => json!({"query": {"type":"match_all"}, "limit": 10, "return_stored": true, "sort": [{"field":"year","order":"desc"},{"field":"tag"}]}),
+    8 => json!({"query": w, "limit": 5, "return_stored": true, "filter": {"KeywordEq": {"field":"tag","value":"a"}}}),
+    _ => json!({"query": {"type":"match_all"}, "limit": 5, "return_stored": false, "aggs": {"t": {"type":"terms","field":"tag"}}}),
+  }
+}
+
+/// a CLI flag set (what `searchlite search` accepts) as a JSON object of flag → value
+fn gen_cli_flags(rng: &mut Rng, rich: bool) -> Value {
+  let w = *rng.pick(&WORDS);
+  let mut f = json!({"query": w});
+  if rng.chance(1, 2) {
+    f["query"] = json!(format!("{w} {}", rng.pick(&WORDS)));
+  }
+  if rng.chance(2, 3) {
+    f["limit"] = json!(1 + rng.below(6));
+  }
+  if rng.chance(1, 2) {
+    f["execution"] = json!(*rng.pick(&["bm25", "wand", "bmw", "BM25", "Bmw", "fastest", ""]));
+  }
+  if rng.chance(1, 2) {
+    f["return_stored"] = json!(true);
+  }
+  if rng.chance(1, 4) {
+    f["highlight"] = json!("body");
+  }
+  if rng.chance(1, 4) {
+    f["fields"] = json!(*rng.pick(&["body", "body, body", " body "]));
+  }
+  if rich && rng.chance(1, 2) {
+    f["sort"] = json!(*rng.pick(&["year:desc", "year:ASC,tag", " tag:Desc , year ", "year", ",year:asc,,", "year:up", "tag:"]));
+  }
+  if rng.chance(1, 4) {
+    f["aggs"] = json!(*rng.pick(&["{\"n\":{\"type\":\"value_count\",\"field\":\"body\"}}", "  ", "not json"]));
+  }
+  if rng.chance(1, 12) {
+    f["limit"] = json!(0);
+  }
+  if rng.chance(1, 6) {
+    f["bmw_block_size"] = json!(1 + rng.below(4));
+    f["execution"] = json!("bmw");
+  }
+  if rng.chance(1, 5) {
+    f["page2"] = json!(true);
+  }
+  f
+}
+
+fn gen_ffi_call(rng: &mut Rng) -> Value {
+  let w = *rng.pick(&WORDS);
+  let query = match rng.below(4) {
+    0 => w.to_string(),
+    1 => format!("{w} {}", rng.pick(&WORDS)),
+    2 => json!({"type":"match_all"}).to_string(),
+    _ => json!({"type":"term","field":"body","value": w}).to_string(),
+  };
+  let aggs = match rng.below(5) {
+    0 => json!("{\"n\":{\"type\":\"value_count\",\"field\":\"body\"}}"),
+    1 => json!("not json"),
+    _ => Value::Null,
+  };
+  json!({"query": query, "limit": if rng.chance(1, 10) { 0 } else { 1 + rng.below(5) }, "aggs": aggs, "page2": rng.chance(1, 4)})
+}
+
+// ---------------------------------------------------------------------------------------
+
+/// wrap a document for the model: `id` = the id the library accepts it under, or null
+fn wrap(schema: &Schema, d: &Value) -> Value {
+  let doc = to_document(d);
+  let ok = d.is_object() && schema.validate_document(&doc).is_ok();
+  let id = if ok { d[schema.doc_id_field()].as_str().map(String::from) } else { None };
+  json!({"id": id, "doc": d})
+}
+
+/// what one front end does with one abstract history step
+fn render(front: &str, h: &Value, schema: &Schema, http_bulk: bool, refresh: bool) -> Vec<Value> {
+  let wrapped = |docs: &Value| -> Vec<Value> { docs.as_array().map(|a| a.iter().map(|d| wrap(schema, d)).collect()).unwrap_or_default() };
+  match (front, h["op"].as_str().unwrap_or("")) {
+    ("cli", "add") => vec![json!({"kind": if h["update"] == json!(true) { "cli_update" } else { "cli_add" }, "docs": wrapped(&h["docs"])})],
+    ("cli", "delete") => vec![json!({"kind":"cli_delete","ids": h["ids"]})],
+    ("cli", "commit") => vec![json!({"kind":"cli_commit"})],
+    ("cli", "compact") => vec![json!({"kind":"cli_compact"})],
+    ("http", "add") => vec![json!({"kind": if http_bulk { "http_bulk" } else { "http_add" }, "docs": wrapped(&h["docs"])})],
+    ("http", "delete") => vec![json!({"kind":"http_delete","ids": h["ids"]})],
+    ("http", "commit") => vec![json!({"kind":"http_commit","refresh": refresh})],
+    ("http", "compact") => vec![json!({"kind":"http_compact"})],
+    ("ffi", "add") => wrapped(&h["docs"]).into_iter().map(|d| json!({"kind":"ffi_add","doc": d})).collect(),
+    ("ffi", "commit") => vec![json!({"kind":"ffi_commit"})],
+    _ => vec![],
+  }
+}
+
+struct FfiHandle(*mut IndexHandle);
+impl Drop for FfiHandle {
+  fn drop(&mut self) {
+    unsafe { searchlite_index_close(self.0) };
+  }
+}
+
+fn ffi_search(h: &FfiHandle, query: &str, limit: usize, cursor: Option<&str>, aggs: Option<&str>) -> Option<Value> {
+  let q = CString::new(query).ok()?;
+  let cur = cursor.and_then(|c| CString::new(c).ok());
+  let mut cap = 1 << 16;
+  loop {
+    let mut buf = vec![0u8; cap];
+    let n = unsafe {
+      searchlite_search(
+        h.0,
+        q.as_ptr(),
+        limit,
+        cur.as_ref().map(|c| c.as_ptr()).unwrap_or(std::ptr::null()),
+        aggs.map(|a| a.as_ptr() as *const c_char).unwrap_or(std::ptr::null()),
+        aggs.map(|a| a.len()).unwrap_or(0),
+        buf.as_mut_ptr() as *mut c_char,
+        cap,
+      )
+    };
+    if n == 0 {
+      return None;
+    }
+    if n + 1 >= cap {
+      cap *= 4;
+      continue;
+    }
+    return serde_json::from_slice(&buf[..n]).ok();
+  }
+}
+
+impl Prop for C25 {
   fn id(&self) -> &'static str {
     "C25"
   }
   fn rule(&self) -> &'static str {
-    "stub"
+    "case = (schema, abstract history of upsert batches / deletes / commits / compaction with occasional rejected documents, searches as JSON requests, CLI flag sets and FFI argument tuples); the history runs through the CLI binary, the HTTP service and the FFI, each next to a twin directory driven by the equivalent Rust API calls; every front-end operation and every search is one evaluation; an evaluation is non-trivial when it changes or reads non-empty contents (a commit that applies ≥ 1 operation, a rejected batch, a search with ≥ 1 hit or an aggregation, a rejected flag set); distinct = distinct (front end, operation/search, history prefix) JSON"
   }
-  fn count(&self, _tier: Tier) -> usize {
-    0
+  fn count(&self, tier: Tier) -> usize {
+    tier.pick(20, 600)
   }
-  fn gen(&self, _rng: &mut Rng, _tier: Tier, _i: usize) -> Value {
-    json!(null)
+  fn gen(&self, rng: &mut Rng, tier: Tier, i: usize) -> Value {
+    let schema_i = i % 3; // 0 default text, 1 rich (tag/year), 2 non-stored fast field (compaction refuses)
+    let rich = schema_i == 1;
+    let n_ops = 4 + rng.below(tier.pick(5, 9));
+    let mut hist: Vec<Value> = Vec::new();
+    let mut next = 0usize;
+    for _ in 0..n_ops {
+      match rng.below(10) {
+        0..=4 => {
+          let n = 1 + rng.below(4);
+          let mut docs: Vec<Value> = (0..n)
+            .map(|_| {
+              // one time in three an id that exists already (upsert)
+              let id = if next > 0 && rng.chance(1, 3) { rng.below(next) } else { next += 1; next - 1 };
+              gen_doc(rng, id, rich)
+            })
+            .collect();
+          if rng.chance(1, 6) {
+            let bad = match rng.below(4) {
+              0 => json!({"body": "no id"}),
+              1 => json!({"_id": "bad1", "body": 17}),
+              2 => json!({"_id": "  ", "body": "blank id"}),
+              _ => json!({"_id": "bad2", "body": null}),
+            };
+            let at = rng.below(docs.len() + 1);
+            docs.insert(at, bad);
+          }
+          hist.push(json!({"op": "add", "docs": docs, "update": rng.chance(1, 4)}));
+        }
+        5..=6 => {
+          let k = 1 + rng.below(2);
+          let ids: Vec<String> = (0..k).map(|_| format!("d{}", rng.below(next.max(1) + 1))).collect();
+          hist.push(json!({"op": "delete", "ids": ids}));
+        }
+        7..=8 => hist.push(json!({"op": "commit"})),
+        _ => hist.push(json!({"op": "compact"})),
+      }
+    }
+    if rng.chance(5, 6) {
+      hist.push(json!({"op": "commit"}));
+    }
+    let n_s = tier.pick(3, 8);
+    let requests: Vec<Value> = (0..n_s).map(|_| gen_request(rng, rich)).collect();
+    let flags: Vec<Value> = (0..n_s).map(|_| gen_cli_flags(rng, rich)).collect();
+    let ffi_calls: Vec<Value> = (0..n_s).map(|_| gen_ffi_call(rng)).collect();
+    json!({"schema": schema_i, "http_bulk": rng.chance(1, 2), "refresh_on_commit": rng.chance(1, 2), "history": hist, "requests": requests, "cli_flags": flags, "ffi_calls": ffi_calls})
   }
-  fn run_case(&self, _drv: &mut Driver, _case: &Value, _s: &mut Summary) {}
+
+  fn run_case(&self, drv: &mut Driver, case: &Value, s: &mut Summary) {
+    let bin = match cli_binary() {
+      Ok(b) => b,
+      Err(e) => {
+        s.disagree("cli.build", case, json!(e), json!(null));
+        return;
+      }
+    };
+    let tmp = scratch();
+    let root = tmp.path();
+    let schema_json = schema_pool(case["schema"].as_u64().unwrap_or(0) as usize);
+    let schema: Schema = serde_json::from_value(schema_json.clone()).expect("schema");
+    let hist = case["history"].as_array().cloned().unwrap_or_default();
+    let http_bulk = case["http_bulk"] == json!(true);
+    let refresh = case["refresh_on_commit"] == json!(true);
+    let schema_file = root.join("schema.json");
+    std::fs::write(&schema_file, schema_json.to_string()).unwrap();
+
+    for front in ["cli", "http", "ffi"] {
+      let fdir = root.join(format!("{front}-front"));
+      let tdir = root.join(format!("{front}-twin"));
+      let mut twin = Twin { dir: tdir.clone(), schema: schema.clone(), index: None, writer: None, failed: false };
+      let mut script: Vec<Value> = Vec::new(); // front-end ops so far, for the contents model
+      let mut server: Option<Server> = None;
+      let mut handle: Option<FfiHandle> = None;
+      let fdir_s = fdir.to_string_lossy().to_string();
+
+      // ---- initialisation ----
+      let init_op = match front {
+        "cli" => json!({"kind":"cli_init"}),
+        "http" => json!({"kind":"http_init"}),
+        _ => json!({"kind":"ffi_open"}),
+      };
+      let init_ok = match front {
+        "cli" => cli(&bin, &["init", &fdir_s, &schema_file.to_string_lossy()]).ok,
+        "http" => match Server::start(&fdir, &ServerCfg { refresh_on_commit: refresh, ..Default::default() }) {
+          Ok(sv) => {
+            let r = post_json(sv.port, "/init", &schema_json);
+            server = Some(sv);
+            r.status == Some(200)
+          }
+          Err(_) => false,
+        },
+        _ => {
+          // the FFI can only create the default schema: other schemas are created through the
+          // library first, then opened through the FFI
+          if case["schema"] != json!(0) {
+            let _ = Index::create(&fdir, schema.clone(), lib_opts(&fdir, true));
+            let _ = Index::create(&tdir, schema.clone(), lib_opts(&tdir, true));
+          }
+          let p = CString::new(fdir_s.clone()).unwrap();
+          let h = unsafe { searchlite_index_open(p.as_ptr(), true) };
+          if h.is_null() {
+            false
+          } else {
+            handle = Some(FfiHandle(h));
+            true
+          }
+        }
+      };
+      let twin_init = twin.exec(&native_denote(&init_op));
+      if !init_ok || twin_init.is_err() {
+        s.fail(&format!("init.{front}"), "initialising an index through the front end failed", case, json!({"front_ok": init_ok, "twin": format!("{twin_init:?}")}));
+        continue;
+      }
+      script.push(init_op);
+
+      // ---- the history ----
+      let mut aborted = false;
+      for (k, h) in hist.iter().enumerate() {
+        let ops = render(front, h, &schema, http_bulk, refresh);
+        for fop in ops {
+          let sub = json!({"front": front, "schema": case["schema"], "op": fop, "after": k});
+          // model vs the harness's table of equivalent calls
+          let native = native_denote(&fop);
+          let m = drv.call("C25", json!({"op":"denote","front": fop}));
+          if m["ops"] != json!(native) {
+            s.disagree("denote.table", &sub, json!(native), m.clone());
+          }
+          // the front end
+          let kind = fop["kind"].as_str().unwrap_or("");
+          let raw_docs: Vec<Value> = fop["docs"].as_array().map(|a| a.iter().map(|d| d["doc"].clone()).collect()).unwrap_or_default();
+          let front_ok: bool = match kind {
+            "cli_add" | "cli_update" => {
+              let f = root.join(format!("docs-{k}.jsonl"));
+              let txt: String = raw_docs.iter().map(|d| format!("{d}\n")).collect();
+              std::fs::write(&f, txt).unwrap();
+              cli(&bin, &[if kind == "cli_add" { "add" } else { "update" }, &fdir_s, &f.to_string_lossy()]).ok
+            }
+            "cli_delete" => {
+              let f = root.join(format!("ids-{k}.txt"));
+              let txt: String = fop["ids"].as_array().unwrap().iter().map(|d| format!("{}\n", d.as_str().unwrap_or(""))).collect();
+              std::fs::write(&f, txt).unwrap();
+              cli(&bin, &["delete", &fdir_s, &f.to_string_lossy()]).ok
+            }
+            "cli_commit" => cli(&bin, &["commit", &fdir_s]).ok,
+            "cli_compact" => cli(&bin, &["compact", &fdir_s]).ok,
+            "http_add" => {
+              let body: String = raw_docs.iter().map(|d| format!("{d}\n")).collect();
+              simple(server.as_ref().unwrap().port, "POST", "/add", Some("application/x-ndjson"), body.as_bytes()).status == Some(200)
+            }
+            "http_bulk" => post_json(server.as_ref().unwrap().port, "/bulk", &json!({"docs": raw_docs})).status == Some(200),
+            "http_delete" => post_json(server.as_ref().unwrap().port, "/delete", &json!({"ids": fop["ids"]})).status == Some(200),
+            "http_commit" => simple(server.as_ref().unwrap().port, "POST", "/commit", None, b"").status == Some(200),
+            "http_compact" => simple(server.as_ref().unwrap().port, "POST", "/compact", None, b"").status == Some(200),
+            "ffi_add" => {
+              let js = CString::new(fop["doc"]["doc"].to_string()).unwrap();
+              unsafe { searchlite_add_json(handle.as_ref().unwrap().0, js.as_ptr(), js.as_bytes().len()) >= 0 }
+            }
+            "ffi_commit" => unsafe { searchlite_commit(handle.as_ref().unwrap().0) == 0 },
+            _ => true,
+          };
+          // the equivalent library calls on the twin
+          let twin_res = twin.exec(&native);
+          script.push(fop.clone());
+          s.count(&format!("op.{kind}.{}", if front_ok { "ok" } else { "rejected" }));
+          let commits = matches!(kind, "cli_commit" | "http_commit" | "ffi_add" | "ffi_commit");
+          let mut nontrivial = !front_ok;
+          if front_ok != twin_res.is_ok() {
+            s.fail(&format!("outcome.{kind}"), "the front-end operation and the equivalent library calls disagree on success/failure", &sub, json!({"front_ok": front_ok, "library": format!("{twin_res:?}")}));
+            aborted = true;
+          }
+          if commits || kind.ends_with("compact") {
+            let lf = live_of(&fdir);
+            let lt = live_of(&tdir);
+            match (&lf, &lt) {
+              (Ok(a), Ok(b)) => {
+                nontrivial = nontrivial || !a.is_empty();
+                if a != b {
+                  let only_f: Vec<&String> = a.keys().filter(|k| b.get(*k) != a.get(*k)).collect();
+                  let only_t: Vec<&String> = b.keys().filter(|k| a.get(*k) != b.get(*k)).collect();
+                  s.fail(&format!("contents.{front}"), "index contents after the front-end history differ from the contents after the equivalent library calls", &json!({"front": front, "case": case, "upto": k}), json!({"differs_front": only_f, "differs_library": only_t}));
+                  s.disagree("denote.effect", &sub, json!({"front": a.keys().collect::<Vec<_>>()}), json!({"library": b.keys().collect::<Vec<_>>()}));
+                  aborted = true;
+                }
+                // the model's contents semantics on the script so far
+                let m = drv.call("C25", json!({"op":"run","script": script}));
+                let mut model: BTreeMap<String, Value> = BTreeMap::new();
+                for kv in m["state"]["committed"].as_array().cloned().unwrap_or_default() {
+                  model.insert(kv[0].as_str().unwrap_or("").to_string(), kv[1]["doc"].clone());
+                }
+                // stored projection: compare ids, and the stored fields the schema keeps
+                let ids_model: Vec<&String> = model.keys().collect();
+                let ids_impl: Vec<&String> = a.keys().collect();
+                let mut same = m["ok"] == json!(true) && ids_model == ids_impl;
+                if same {
+                  for (id, doc) in a.iter() {
+                    if let Some(o) = doc.as_object() {
+                      for (fk, fv) in o {
+                        if model[id].get(fk) != Some(fv) {
+                          same = false;
+                        }
+                      }
+                    }
+                  }
+                }
+                if !same {
+                  s.disagree("contents.model", &json!({"front": front, "script": script}), json!(a), m["state"]["committed"].clone());
+                }
+              }
+              _ => {
+                if lf.is_ok() != lt.is_ok() {
+                  s.fail(&format!("contents.{front}"), "contents readable on one side only", &sub, json!({"front": format!("{lf:?}"), "library": format!("{lt:?}")}));
+                  aborted = true;
+                }
+              }
+            }
+          }
+          s.case(&sub, nontrivial);
+          if aborted {
+            break;
+          }
+        }
+        if aborted {
+          break;
+        }
+      }
+      if aborted {
+        continue;
+      }
+
+      // ---- searches through the front end vs the library on the twin ----
+      match front {
+        "http" => {
+          let port = server.as_ref().unwrap().port;
+          for req in case["requests"].as_array().cloned().unwrap_or_default() {
+            let mut req = req;
+            let page2 = req.as_object_mut().and_then(|o| o.remove("page2")).is_some();
+            let mut fr = post_json(port, "/search", &req);
+            let mut lib = lib_search(&tdir, &req);
+            if page2 {
+              let c1 = fr.json().and_then(|v| v["next_cursor"].as_str().map(String::from));
+              let c2 = lib.ok().and_then(|v| v["next_cursor"].as_str().map(String::from));
+              if let (Some(c1), Some(c2)) = (c1, c2) {
+                let mut r1 = req.clone();
+                r1["cursor"] = json!(c1);
+                let mut r2 = req.clone();
+                r2["cursor"] = json!(c2);
+                fr = post_json(port, "/search", &r1);
+                lib = lib_search(&tdir, &r2);
+                s.count("search.page2");
+              }
+            }
+            let sub = json!({"front":"http","schema":case["schema"],"history":case["history"],"http_bulk":http_bulk,"request":req,"page2":page2});
+            compare_search(s, "http", &sub, fr.status == Some(200), fr.json(), &lib, None);
+          }
+        }
+        "cli" => {
+          // (a) request files
+          for (n, req) in case["requests"].as_array().cloned().unwrap_or_default().into_iter().enumerate() {
+            let mut req = req;
+            let page2 = req.as_object_mut().and_then(|o| o.remove("page2")).is_some();
+            let f = root.join(format!("req-{n}.json"));
+            std::fs::write(&f, req.to_string()).unwrap();
+            let out = cli(&bin, &["search", &fdir_s, "--request", &f.to_string_lossy()]);
+            let lib = lib_search(&tdir, &req);
+            let sub = json!({"front":"cli","schema":case["schema"],"history":case["history"],"request":req,"page2":page2});
+            compare_search(s, "cli.request-file", &sub, out.ok, serde_json::from_str(&out.stdout).ok(), &lib, None);
+          }
+          // (b) flags
+          for flags in case["cli_flags"].as_array().cloned().unwrap_or_default() {
+            let run_flags = |cursor: Option<&str>| -> CliOut {
+              let mut args: Vec<String> = vec!["search".into(), fdir_s.clone()];
+              if let Some(q) = flags["query"].as_str() {
+                args.push("-q".into());
+                args.push(q.into());
+              }
+              for (k, flag) in [("limit", "--limit"), ("bmw_block_size", "--bmw-block-size")] {
+                if let Some(v) = flags[k].as_u64() {
+                  args.push(flag.into());
+                  args.push(v.to_string());
+                }
+              }
+              for (k, flag) in [("execution", "--execution"), ("fields", "--fields"), ("highlight", "--highlight"), ("sort", "--sort"), ("aggs", "--aggs")] {
+                if let Some(v) = flags[k].as_str() {
+                  args.push(format!("{flag}={v}"));
+                }
+              }
+              if flags["return_stored"] == json!(true) {
+                args.push("--return-stored".into());
+              }
+              if let Some(c) = cursor {
+                args.push("--cursor".into());
+                args.push(c.into());
+              }
+              let a: Vec<&str> = args.iter().map(|x| x.as_str()).collect();
+              cli(&bin, &a)
+            };
+            // the request the flags stand for: (i) the model's, (ii) the harness's own reading of
+            // the README (`-q`, `--limit` default 10, `--execution` default wand, …)
+            let model_args = |cursor: Option<&str>| -> Value {
+              let mut a = flags.clone();
+              a.as_object_mut().unwrap().remove("page2");
+              if let Some(t) = flags["aggs"].as_str() {
+                a["aggs"] = if t.trim().is_empty() {
+                  json!({"kind":"blank"})
+                } else {
+                  match serde_json::from_str::<BTreeMap<String, searchlite_core::api::types::Aggregation>>(t) {
+                    Ok(_) => json!({"kind":"parsed","map": serde_json::from_str::<Value>(t).unwrap()}),
+                    Err(_) => json!({"kind":"invalid"}),
+                  }
+                };
+              }
+              if let Some(c) = cursor {
+                a["cursor"] = json!(c);
+              }
+              a
+            };
+            let native_req = |cursor: Option<&str>| -> Option<Value> { native_cli_request(&flags, cursor) };
+            let mut out = run_flags(None);
+            let mut m = drv.call("C25", json!({"op":"cli_request","args": model_args(None)}));
+            let mut nat = native_req(None);
+            let page2 = flags["page2"] == json!(true);
+            if page2 && out.ok {
+              let c1 = serde_json::from_str::<Value>(&out.stdout).ok().and_then(|v| v["next_cursor"].as_str().map(String::from));
+              let c2 = nat.as_ref().and_then(|r| lib_search(&tdir, r).ok().and_then(|v| v["next_cursor"].as_str().map(String::from)));
+              if let (Some(c1), Some(c2)) = (c1, c2) {
+                out = run_flags(Some(&c1));
+                m = drv.call("C25", json!({"op":"cli_request","args": model_args(Some(&c2))}));
+                nat = native_req(Some(&c2));
+                s.count("search.page2");
+              }
+            }
+            let sub = json!({"front":"cli","schema":case["schema"],"history":case["history"],"flags":flags});
+            let front_json: Option<Value> = serde_json::from_str(&out.stdout).ok();
+            // finder: harness's request through the library
+            match &nat {
+              Some(r) => compare_search(s, "cli.flags", &sub, out.ok, front_json.clone(), &lib_search(&tdir, r), None),
+              None => {
+                s.count("cli.flags.rejected_expected");
+                s.case(&sub, true);
+                if out.ok {
+                  s.fail("search.cli.flags.accepted-invalid", "the CLI accepted a flag set that has no library request (limit 0, bad sort order, bad aggregations)", &sub, json!(out.stdout));
+                }
+              }
+            }
+            // correspondence: the model's request through the library
+            if m["ok"] != json!(true) {
+              s.disagree("cli.request", &sub, json!({"cli_ok": out.ok}), m.clone());
+            } else if m["result"] == json!("ok") {
+              let lib = lib_search(&tdir, &m["request"]);
+              let agree = match (&lib, out.ok, &front_json) {
+                (idx::Outcome::Ok(l), true, Some(f)) => results_close(f, l).is_ok(),
+                (idx::Outcome::Err(_), false, _) => true,
+                // the library panics on this request (C16): the CLI process dies with it
+                (idx::Outcome::Panic(_), false, _) => true,
+                _ => false,
+              };
+              if !agree {
+                s.disagree("cli.request", &sub, json!({"cli_ok": out.ok, "stdout": front_json, "stderr": out.stderr}), json!({"model_request": m["request"], "library": lib.to_json()}));
+              }
+            } else if out.ok {
+              s.disagree("cli.request", &sub, json!({"cli_ok": true}), m.clone());
+            }
+          }
+        }
+        _ => {
+          let h = handle.as_ref().unwrap();
+          for call in case["ffi_calls"].as_array().cloned().unwrap_or_default() {
+            let q = call["query"].as_str().unwrap_or("");
+            let limit = call["limit"].as_u64().unwrap_or(1) as usize;
+            let aggs = call["aggs"].as_str();
+            let node: Option<Value> = serde_json::from_str::<QueryNode>(q).ok().map(|_| serde_json::from_str::<Value>(q).unwrap());
+            let aggs_model = match aggs {
+              None => json!({"kind":"absent"}),
+              Some(t) if t.is_empty() => json!({"kind":"absent"}),
+              Some(t) => match serde_json::from_str::<BTreeMap<String, searchlite_core::api::types::Aggregation>>(t) {
+                Ok(_) => json!({"kind":"parsed","map": serde_json::from_str::<Value>(t).unwrap()}),
+                Err(_) => json!({"kind":"invalid"}),
+              },
+            };
+            let native_req = |cursor: Option<&str>| -> Option<Value> {
+              if aggs_model["kind"] == json!("invalid") {
+                return None;
+              }
+              let mut r = json!({"query": node.clone().unwrap_or(json!(q)), "limit": limit, "return_stored": true});
+              if aggs_model["kind"] == json!("parsed") {
+                r["aggs"] = aggs_model["map"].clone();
+              }
+              if let Some(c) = cursor {
+                r["cursor"] = json!(c);
+              }
+              Some(r)
+            };
+            let mut nat = native_req(None);
+            // a panic inside an `extern "C"` function aborts the process: ask the library first
+            // (same request, same contents) and do not make the FFI call if it panics there
+            if let Some(r) = &nat {
+              if let idx::Outcome::Panic(p) = lib_search(&tdir, r) {
+                s.count("ffi.skipped_library_panics");
+                if s.notes.len() < 3 {
+                  s.notes.push(format!("library panic (FFI call skipped, it would abort the process): {p} on {r}"));
+                }
+                continue;
+              }
+            }
+            let mut out = ffi_search(h, q, limit, None, aggs);
+            let mut mreq = json!({"op":"ffi_request","query": q, "node": node, "limit": limit, "aggs": aggs_model});
+            if call["page2"] == json!(true) {
+              let c1 = out.as_ref().and_then(|v| v["next_cursor"].as_str().map(String::from));
+              let c2 = nat.as_ref().and_then(|r| lib_search(&tdir, r).ok().and_then(|v| v["next_cursor"].as_str().map(String::from)));
+              if let (Some(c1), Some(c2)) = (c1, c2) {
+                nat = native_req(Some(&c2));
+                if let Some(idx::Outcome::Panic(_)) = nat.as_ref().map(|r| lib_search(&tdir, r)) {
+                  s.count("ffi.skipped_library_panics");
+                  continue;
+                }
+                out = ffi_search(h, q, limit, Some(&c1), aggs);
+                mreq["cursor"] = json!(c2);
+                s.count("search.page2");
+              }
+            }
+            let sub = json!({"front":"ffi","schema":case["schema"],"history":case["history"],"call":call});
+            match &nat {
+              Some(r) => compare_search(s, "ffi", &sub, out.is_some(), out.clone(), &lib_search(&tdir, r), None),
+              None => {
+                s.case(&sub, true);
+                if out.is_some() {
+                  s.fail("search.ffi.accepted-invalid-aggs", "searchlite_search produced output although the aggregation JSON is invalid", &sub, json!(out));
+                }
+              }
+            }
+            let m = drv.call("C25", mreq);
+            if m["ok"] != json!(true) {
+              s.disagree("ffi.request", &sub, json!(out), m.clone());
+            } else if m["result"] == json!("ok") {
+              let lib = lib_search(&tdir, &m["request"]);
+              let agree = match (&lib, &out) {
+                (idx::Outcome::Ok(l), Some(f)) => results_close(f, l).is_ok(),
+                (idx::Outcome::Err(_), None) => true,
+                _ => false,
+              };
+              if !agree {
+                s.disagree("ffi.request", &sub, json!(out), json!({"model_request": m["request"], "library": lib.to_json()}));
+              }
+            } else if out.is_some() {
+              s.disagree("ffi.request", &sub, json!(out), m.clone());
+            }
+          }
+        }
+      }
+      drop(handle);
+      drop(server);
+    }
+  }
+
+  fn finish(&self, _tier: Tier, s: &mut Summary) {
+    s.exhaustive = false;
+    s.notes.push("three front ends (CLI subprocess, in-process HTTP server, FFI rlib), each against a twin directory driven by the equivalent library calls; contents compared after every commit/compaction, outcomes per operation, searches through the front end vs IndexReader::search on the twin (scores within 2e-5, ties as sets, next_cursor by presence)".into());
+  }
+}
+
+/// the harness's own reading of the CLI documentation: the request a flag set stands for;
+/// `None` = the flag set must be rejected
+fn native_cli_request(flags: &Value, cursor: Option<&str>) -> Option<Value> {
+  let q = flags["query"].as_str()?;
+  let limit = flags["limit"].as_u64().unwrap_or(10);
+  if limit == 0 {
+    return None;
+  }
+  let mut r = json!({"query": q, "limit": limit, "return_stored": flags["return_stored"] == json!(true)});
+  if let Some(e) = flags["execution"].as_str() {
+    r["execution"] = json!(match e.to_ascii_lowercase().as_str() {
+      "bm25" => "bm25",
+      "bmw" => "bmw",
+      _ => "wand",
+    });
+  }
+  if let Some(b) = flags["bmw_block_size"].as_u64() {
+    r["bmw_block_size"] = json!(b);
+  }
+  if let Some(h) = flags["highlight"].as_str() {
+    r["highlight_field"] = json!(h);
+  }
+  if let Some(f) = flags["fields"].as_str() {
+    r["fields"] = json!(f.split(',').map(|x| x.trim().to_string()).collect::<Vec<_>>());
+  }
+  if let Some(sv) = flags["sort"].as_str() {
+    let mut out = Vec::new();
+    for clause in sv.split(',') {
+      let t = clause.trim();
+      if t.is_empty() {
+        continue;
+      }
+      match t.split_once(':') {
+        None => out.push(json!({"field": t})),
+        Some((f, o)) => match o.to_ascii_lowercase().as_str() {
+          "asc" => out.push(json!({"field": f, "order": "asc"})),
+          "desc" => out.push(json!({"field": f, "order": "desc"})),
+          _ => return None,
+        },
+      }
+    }
+    r["sort"] = json!(out);
+  }
+  if let Some(a) = flags["aggs"].as_str() {
+    if !a.trim().is_empty() {
+      let v: Value = serde_json::from_str(a).ok()?;
+      serde_json::from_value::<BTreeMap<String, searchlite_core::api::types::Aggregation>>(v.clone()).ok()?;
+      r["aggs"] = v;
+    }
+  }
+  if let Some(c) = cursor {
+    r["cursor"] = json!(c);
+  }
+  Some(r)
+}
+
+/// finder for one search: front end (ok?, JSON) vs library outcome on the twin
+fn compare_search(s: &mut Summary, front: &str, sub: &Value, front_ok: bool, front_json: Option<Value>, lib: &idx::Outcome, _note: Option<&str>) {
+  let mut nontrivial = false;
+  match (lib, front_ok) {
+    (idx::Outcome::Ok(l), true) => match front_json {
+      Some(f) => {
+        nontrivial = l["hits"].as_array().map(|a| !a.is_empty()).unwrap_or(false) || l.get("aggregations").map(|a| !a.is_null()).unwrap_or(false);
+        if let Err(e) = results_close(&f, l) {
+          s.fail(&format!("search.{front}.results"), "search results through the front end differ from IndexReader::search for the same request on the same contents", sub, json!({"why": e, "front": f, "library": l}));
+        }
+      }
+      None => s.fail(&format!("search.{front}.output"), "the front end reported success but its output is not JSON", sub, json!(null)),
+    },
+    (idx::Outcome::Ok(l), false) => s.fail(&format!("search.{front}.rejected"), "the front end failed on a request the library answers", sub, json!({"library": l})),
+    (idx::Outcome::Err(e), true) => s.fail(&format!("search.{front}.accepted"), "the front end answered a request the library rejects", sub, json!({"library_error": e, "front": front_json})),
+    (idx::Outcome::Err(_), false) => nontrivial = true,
+    (idx::Outcome::Panic(_), _) => s.count("search.library_panic"),
+  }
+  s.count(&format!("search.{front}"));
+  s.case(sub, nontrivial);
 }
